@@ -93,17 +93,23 @@ def rand_cfg(det, rng):
     return (w, aw, ad)
 
 
-def run_sequence(det, cfg, bits, ctx, label):
-    """returns (ok, drifts, epochs)"""
+def run_sequence(det, cfg, bits, ctx, label, resets=()):
+    """returns (ok, drifts).  resets: positions before which the user calls reset() explicitly (a new epoch starts there)"""
     cls, mcls = CLS[det]
     d = cls(*cfg)
     sh = Shadow(lambda: mcls(*cfg), lambda m: m.state)
     drifts = 0
     prev_state = None
     for i, e in enumerate(bits):
-        d.update(1, 1 - e)
+        if i in resets:
+            d.reset()
+            ctx.count("explicit_resets")
+            e = ("reset", e)
+        d.update(1, 1 - (e[1] if isinstance(e, tuple) else e))
         st = d.drift_state
         ok, adopted = sh.step((e,), st)
+        if isinstance(e, tuple):
+            e = e[1]
         m = sh.model
         ctx.count("steps")
         if adopted:
@@ -169,7 +175,8 @@ def run_case(case, ctx):
     cfg = rand_cfg(det, rng)
     n = int(rng.integers(200, 1500))
     bits = gen.bernoulli_piecewise(rng, n, seg=(2, 150))
-    ok, drifts = run_sequence(det, cfg, bits, ctx, "random sequence")
+    resets = set(int(v) for v in rng.integers(1, n, size=int(rng.integers(0, 4)))) if rng.random() < 0.3 else set()
+    ok, drifts = run_sequence(det, cfg, bits, ctx, "random sequence" + (" with explicit reset() before %s" % sorted(resets) if resets else ""), resets)
     ctx.count("random_sequences")
     if drifts >= 3:
         ctx.count("histories_3plus_epochs")
